@@ -57,7 +57,7 @@ CHECKS = {
                 note="'Random beyond the bound' of the quantifier text is deliberately not done (sampling is a different family); the completed bound is reported.",
                 technique="exhaustive fault-sequence enumeration up to a bound on the real decoder"),
     "C17": dict(level="model_checking", design="4/C17",
-                text="68-symbol state-relative frame alphabet over 4 endpoints: unmerged tree of copied real Decoders (depth 3 quick / 4 thorough; depth 5 / 6 over a sharp 17-symbol sub-alphabet) and BFS (depth 9 / 11) merged on (model state, dump of the decoder's pending table); after every transition the set of endpoints with pending data must equal the set of open messages and buffered bytes must not exceed header + declared segment bytes received.",
+                text="71-symbol state-relative frame alphabet over 4 endpoints: unmerged tree of copied real Decoders (depth 3 quick / 4 thorough; depth 5 / 6 over a sharp 17-symbol sub-alphabet) and BFS (depth 9 / 11) merged on (model state, dump of the decoder's pending table); after every transition the set of endpoints with pending data must equal the set of open messages and buffered bytes must not exceed header + declared segment bytes received.",
                 note="Uses the guarded read-only hook Decoder::verifPending(); a header-only frame is modelled as carrying nothing.",
                 technique="explicit-state model checking (tree + BFS with state merging) of the real decoder against a reference model; invariant checked in every state"),
     "C18": dict(level="model_checking", design="4/C18",
